@@ -47,7 +47,8 @@ type c09layout struct {
 func c09Layout(r *rand.Rand, k int) c09layout {
 	switch r.Intn(4) {
 	case 0: // one explicit pattern per file, names in an order unrelated to the merge order
-		names := []string{"z.yaml", "a.yaml", "M.yaml", "sub/b.yaml", "0.yaml", "k-l.yaml", "k/l.yaml"}
+		// file names are arbitrary text as far as the tool is concerned: commas, blanks, semicolons, equal signs, non-ASCII letters
+		names := []string{"z.yaml", "a.yaml", "M.yaml", "sub/b.yaml", "0.yaml", "k-l.yaml", "k/l.yaml", "20-over,ride.yaml", "with space.yaml", "semi;colon.yaml", "eq=x.yaml", "héllo.yaml", "a,b/c,d.yaml", "tab\there.yaml"}
 		r.Shuffle(len(names), func(i, j int) { names[i], names[j] = names[j], names[i] })
 		l := c09layout{}
 		for i := 0; i < k; i++ {
@@ -69,7 +70,7 @@ func c09Layout(r *rand.Rand, k int) c09layout {
 		sort.Strings(fs)
 		return c09layout{files: fs, patterns: []string{"c*/part.yaml"}}
 	case 2: // one glob in one directory, upper/lower case and punctuation
-		names := []string{"a.yaml", "B.yaml", "b.yaml", "a-b.yaml", "a_b.yaml", "A.yaml", "ab.yaml", "a.b.yaml"}
+		names := []string{"a.yaml", "B.yaml", "b.yaml", "a-b.yaml", "a_b.yaml", "A.yaml", "ab.yaml", "a.b.yaml", "a,b.yaml", "a b.yaml", "a=b.yaml"}
 		r.Shuffle(len(names), func(i, j int) { names[i], names[j] = names[j], names[i] })
 		var fs []string
 		for i := 0; i < k; i++ {
